@@ -32,8 +32,7 @@ pub struct Assoc {
 fn fold(b: &[u8]) -> u64 { b.iter().fold(7u64, |a, x| (a * 31 + *x as u64) % 4294967296) }
 
 impl Assoc {
-    /// `closed0`: leave the association in the state the dropped stock runner puts it in (Closed) instead of New
-    pub fn new(is_client: bool, closed0: bool, seed_tsn: u32) -> Self {
+    pub fn new(is_client: bool, seed_tsn: u32) -> Self {
         let rt = tokio::runtime::Builder::new_current_thread().enable_all().build().unwrap();
         let port = NEXT_PORT.fetch_add(1, Ordering::SeqCst);
         hk::clear(port);
@@ -49,7 +48,6 @@ impl Assoc {
             let (dc_tx, dc_rx) = tokio::sync::mpsc::unbounded_channel::<Arc<DataChannel>>();
             let (sctp, _run) = SctpTransport::new_verif_link(dtls, in_rx, out_tx, Arc::new(parking_lot::Mutex::new(Vec::new())), port, 5000, Some(dc_tx), is_client,
                 &rustrtc::RtcConfiguration::default());
-            if !closed0 { sctp.verif_set_state_new(); }
             (sctp, dc_rx, out_rx, in_tx)
         });
         let mut a = Assoc { rt, sctp, port, chan_rx, held: vec![], _out_rx: out_rx, _in_tx: in_tx };
@@ -224,23 +222,23 @@ fn gen_packet(rng: &mut Rng, cum: u32, cookies: &[Vec<u8>], req_sn: &mut u32, pe
 pub struct Step { pub crc_ok: bool, pub bytes: Vec<u8>, pub issued: Vec<Vec<u8>> }
 fn crc_ok(p: &[u8]) -> bool { p.len() >= 12 && { let mut q = p.to_vec(); let w = [q[8], q[9], q[10], q[11]]; q[8..12].copy_from_slice(&[0; 4]); crc32c::crc32c(&q).to_le_bytes() == w } }
 
-fn case_text(is_client: bool, closed0: bool, seed_tsn: u32, steps: &[Step]) -> String {
-    format!("{} {} {}", is_client as u8 + 2 * closed0 as u8, seed_tsn, steps.iter().map(|s| format!("{}:{}:{}", s.crc_ok as u8, hex(&s.bytes),
+fn case_text(is_client: bool, seed_tsn: u32, steps: &[Step]) -> String {
+    format!("{} {} {}", is_client as u8, seed_tsn, steps.iter().map(|s| format!("{}:{}:{}", s.crc_ok as u8, hex(&s.bytes),
         if s.issued.is_empty() { "-".to_string() } else { s.issued.iter().map(|c| hex(c)).collect::<Vec<_>>().join("+") })).collect::<Vec<_>>().join(" "))
 }
 
 /// run one generated session; `script`: None = generate with `rng`, Some = replay these packets
-pub fn run_session(run: &mut Run, rng: &mut Rng, is_client: bool, closed0: bool, replay: Option<(u32, Vec<Vec<u8>>)>, nt: bool) {
+pub fn run_session(run: &mut Run, rng: &mut Rng, is_client: bool, replay: Option<(u32, Vec<Vec<u8>>)>, nt: bool) {
     let seed_tsn = replay.as_ref().map(|r| r.0).unwrap_or_else(|| { let r = rng.next() as u32; *rng.pick(&[1u32, 0, 0xFFFF_FFFF, 0x8000_0000, 0x7FFF_FFFF, r]) });
     let mut steps: Vec<Step> = vec![];
     let mut outs: Vec<String> = vec![];
     let mut panicked: Option<String> = None;
     let total_len;
     {
-        let mut a = Assoc::new(is_client, closed0, seed_tsn);
+        let mut a = Assoc::new(is_client, seed_tsn);
         let mut feed = |a: &mut Assoc, p: Vec<u8>, steps: &mut Vec<Step>, outs: &mut Vec<String>| -> Vec<Vec<u8>> {
             if panicked.is_some() { return vec![]; }
-            let r = { let mut ar = std::panic::AssertUnwindSafe(&mut *a); let pr = p.clone(); crate::catch(move || ar.feed(&pr)) };
+            let r = { let mut ar = std::panic::AssertUnwindSafe(&mut *a); let pr = p.clone(); super::catch_ack(move || ar.feed(&pr)) };
             match r {
                 Ok((d, issued)) => { steps.push(Step { crc_ok: crc_ok(&p), bytes: p, issued: issued.clone() }); outs.push(d); issued }
                 Err(msg) => { steps.push(Step { crc_ok: crc_ok(&p), bytes: p, issued: vec![] }); panicked = Some(msg); vec![] }
@@ -281,7 +279,7 @@ pub fn run_session(run: &mut Run, rng: &mut Rng, is_client: bool, closed0: bool,
         }
         total_len = steps.iter().map(|s| s.bytes.len() as u64).sum::<u64>();
     }
-    let text = case_text(is_client, closed0, seed_tsn, &steps);
+    let text = case_text(is_client, seed_tsn, &steps);
     if let Some(msg) = &panicked {
         run.fail(&format!("panic:SctpInner::handle_packet(history):{}", super::panic_site(msg)), &format!("sctpassoc {text}"), msg);
     }
@@ -301,7 +299,7 @@ pub fn run_session(run: &mut Run, rng: &mut Rng, is_client: bool, closed0: bool,
 /// Oracle: retained ≤ 16·bytes received + 64 KiB, and every packet handled within the per-call deadline.
 pub fn run_flood(run: &mut Run, kind: u8, count: u32, size: usize) {
     let case = format!("sctpflood {kind} {count} {size}");
-    let mut a = Assoc::new(false, false, 1);
+    let mut a = Assoc::new(false, 1);
     let peer_tag = 0x0A0B_0C0Du32;
     let mut p = header(0); chunk(&mut p, 1, 0, &init_value(peer_tag, 1 << 20, 100)); crc_fix(&mut p);
     let (_, cookies) = a.feed(&p);
@@ -314,7 +312,7 @@ pub fn run_flood(run: &mut Run, kind: u8, count: u32, size: usize) {
     let body = vec![0x55u8; size];
     let panics0 = super::panic_count();
     super::alloc_reset();
-    let r = { let mut ar = std::panic::AssertUnwindSafe(&mut a); let body = body.clone(); crate::catch(move || {
+    let r = { let mut ar = std::panic::AssertUnwindSafe(&mut a); let body = body.clone(); super::catch_ack(move || {
         let mut bytes = 0u64; let mut slow = std::time::Duration::ZERO;
         for k in 0..count {
             let mut p = header(0x1122_3344);
@@ -361,11 +359,11 @@ pub fn special(run: &mut Run, rng: &mut Rng, thorough: bool) {
     // compared: 1030 DCEP OPENs on distinct streams in one session — the model and the code must refuse the same ones
     {
         let pk: Vec<Vec<u8>> = (0..1030u32).map(|k| { let mut p = header(0); chunk(&mut p, 0, 7, &data_value(1 + k, k as u16, 0, 50, &[3, 0, 0, 0, 0, 0, 0, 0, 0, 1, 0, 0, b'l'])); crc_fix(&mut p); p }).collect();
-        run_session(run, rng, false, false, Some((1, pk)), true);
+        run_session(run, rng, false, Some((1, pk)), true);
     }
     run_flood(run, 5, 3_400, 1);                           // 68 000 in-order messages on one ordered channel: SSN wrap-around
     let n = if thorough { 30_000 } else { 1_500 };
-    for i in 0..n { run_session(run, rng, i % 5 == 4, false, None, true); }   // (`new_verif_link` now always hands out a New association)
+    for i in 0..n { run_session(run, rng, i % 5 == 4, None, true); }
 }
 
 pub fn replay_special(run: &mut Run, stream: &str, a: &[&str]) -> bool {
@@ -373,6 +371,6 @@ pub fn replay_special(run: &mut Run, stream: &str, a: &[&str]) -> bool {
     if stream != "sctpassoc" || a.len() < 2 { return false; }
     let pk: Vec<Vec<u8>> = a[2..].iter().filter_map(|t| t.split(':').nth(1).map(unhex)).collect();
     let mut rng = Rng::new(1);
-    run_session(run, &mut rng, a[0] == "1" || a[0] == "3", a[0] == "2" || a[0] == "3", Some((a[1].parse().unwrap_or(1), pk)), true);
+    run_session(run, &mut rng, a[0] == "1", Some((a[1].parse().unwrap_or(1), pk)), true);
     true
 }
